@@ -171,6 +171,11 @@ type world struct {
 	hist       *history
 	life       int  // 1 + number of restarts so far (for traces)
 	afterFault bool // the next plan follows a restart/resume
+	// stall: swarm option. 0 = off, -1 = not drawn yet; k > 0: in every round the network's votes
+	// stay below the quorums for round indexes 1..k (the same block is carried from index to index
+	// while the validator's per-index vote stores are recycled)
+	stall      int
+	stallDrawn bool
 	armed      bool // a crash at the next disk write is armed
 	nRestarts  int
 	yp         *params.YouParams
